@@ -134,12 +134,14 @@ def run(facts):
     res = Result("C7", "leaf Bufs, inherited defaults and IntoIter: remaining/chunk cut from one value, advance moves by exactly the argument, VecDeque order, exact iterator")
     has_std = any("std::io::Cursor<T> as buf::buf_impl::Buf" in b.id for b in facts.fn_bodies())
 
-    def single(ident, what, pred, suffix=None):
+    def single(ident, what, pred, suffix=None, semantic=None):
         b = find(facts, ident, suffix)
         alts = ret_alts(b, facts)
         key = "%s|%s" % (b.id, what)
         if len(alts) == 1 and pred(alts[0][1]):
             res.ok(key, b.loc(), fmt_expr(alts[0][1])[:90], nontrivial=True)
+        elif semantic is not None and not semantic(b):
+            res.ok(key, b.loc(), "decided semantically: on every path of the fully inlined method the result is entailed to be the specified value", nontrivial=True)
         else:
             res.bad(key, b.loc(), "returns %s; expected %s" % (" / ".join(fmt_expr(a[1])[:80] for a in alts), what))
 
@@ -358,12 +360,60 @@ def check_vd_vectored(res, facts, b, slices):
         res.bad(key, b.loc(), "; ".join(sorted(set(probs))))
 
 
+def cursor_semantic(facts, b, kind):
+    """Cursor::remaining / Cursor::chunk decided by what they compute rather than by how it is spelt: with every crate helper
+    inlined, on every path (P = position(), L = the slice's length, both as numbers)
+        remaining:   P >= L  =>  result == 0        P < L  =>  result == L - P
+        chunk:       the result is  &slice[K..]  with   P >= L  =>  K == L        P < L  =>  K == P
+    entailed in the linear-inequality domain from the conditions on the path (u64 -> usize conversions and Option / Result
+    combinators are split into their cases). -> list of problems"""
+    from .inline import inlined, keep_pred
+    from .flow import PathExprBuilder, enumerate_paths, path_relations
+    from .lin import State, ISIZE_MAX
+    v = inlined(facts, b, pred=keep_pred((), (), atoms=False))
+    P = L = None
+    n = 0
+    for path in enumerate_paths(v, limit=400):
+        pe = PathExprBuilder(v, facts, path, inline=False)
+        val = canon(pe.local(0, (path[-1], len(v.blocks[path[-1]]["stmts"]))))
+        rels = [r for r in path_relations(v, facts, path) if r[0] in ("lt", "le", "eq", "ne", "truth", "notin")
+                and not (r[0] == "truth" and isinstance(r[1], tuple) and r[1] and r[1][0] == "ovf")]      # overflow flags exist in checked builds only
+        # find P and L among the sub-expressions
+        for x in walk(val):
+            pass
+        cands = [val] + [y for r in rels for y in r[1:3] if isinstance(y, tuple)]
+        for e in cands:
+            for x in walk(e):
+                if P is None and cursor_pos(x):
+                    P = canon(peel(uncast(x)))
+                if L is None and callname(x) == "len" and x[2] and cursor_slice(peel(x[2][0])):
+                    L = canon(x)
+        if P is None or L is None:
+            return ["cannot find position() and the slice length in the method"]
+        target = val
+        if kind == "chunk":
+            e = peel(val)
+            if not (callname(e) in ("index", "get_unchecked") and cursor_slice(e[2][0]) and isinstance(e[2][1], tuple) and e[2][1][0] == "agg" and "RangeFrom" in aggname(e[2][1])):
+                return ["does not return &slice[K..] of the cursor's slice: %s" % fmt_expr(val)[:80]]
+            target = e[2][1][2][0]
+        n += 1
+        base = rels + [("le", L, ("const", ISIZE_MAX))]
+        past, before = base + [("le", L, P)], base + [("lt", P, L)]
+        want_past = ("eq", target, ("const", 0)) if kind == "remaining" else ("eq", target, L)
+        want_before = ("eq", target, ("bin", "Sub", L, P)) if kind == "remaining" else ("eq", target, P)
+        for hyp, want, name in ((past, want_past, "position >= len"), (before, want_before, "position < len")):
+            st = State(hyp, facts=facts)
+            if not st.refuted() and not st.entails(want):
+                return ["for %s the %s is %s, which is not entailed to be %s" % (name, "result" if kind == "remaining" else "start of the chunk", fmt_expr(target)[:70], fmt_expr(want[2])[:30])]
+    return [] if n else ["no returning path"]
+
+
 def check_cursor(res, facts, single):
     pre = "<std::io::Cursor<T> as buf::buf_impl::Buf>::"
 
     def rem(e):
         return callname(e) == "saturating_sub_usize_u64" and callname(peel(e[2][0])) == "len" and cursor_slice(peel(e[2][0])[2][0]) and cursor_pos(e[2][1])
-    single(pre + "remaining", "len(slice).saturating_sub(position)", rem)
+    single(pre + "remaining", "len(slice).saturating_sub(position)", rem, semantic=lambda b: cursor_semantic(facts, b, "remaining"))
 
     def chunk(e):
         e = peel(e)
@@ -374,7 +424,7 @@ def check_cursor(res, facts, single):
             return False
         m = r[2][0]
         return callname(m) == "min_u64_usize" and cursor_pos(m[2][0]) and callname(peel(m[2][1])) == "len" and cursor_slice(peel(m[2][1])[2][0])
-    single(pre + "chunk", "&slice[min(position, len)..]", chunk)
+    single(pre + "chunk", "&slice[min(position, len)..]", chunk, semantic=lambda b: cursor_semantic(facts, b, "chunk"))
     b = find(facts, pre + "advance")
     cs = calls_of(b, facts, "set_position")
     key = b.id + "|position + cnt"
@@ -510,22 +560,39 @@ def check_copy_defaults(res, facts):
     b = find(facts, "<&[u8] as buf::buf_impl::Buf>::copy_to_slice")
 
     def slice_probs(v):
+        """one copy of the first dst.len() bytes of *self into dst, and *self becomes the rest: `&self[..n]` + `advance(n)`, or
+        `(head, tail) = self.split_at(n)` + `*self = tail` (n = dst.len())"""
         probs = []
         cp = calls_of(v, facts, "copy_from_slice")
-        adv = calls_of(v, facts, "advance")
-        if len(cp) != 1 or len(adv) != 1:
-            return ["expected one copy_from_slice and one advance"]
+        if len(cp) != 1:
+            return ["expected exactly one copy_from_slice"]
         bi, a = cp[0]
-        dlen = ("call", "core::slice::<impl [T]>::len", (P2,))
 
         def is_dlen(x):
             x = uncast(x)
             return callname(x) == "len" and peel(x[2][0]) == P2
+
+        def split_part(x, i):
+            x = peel(x)
+            return isinstance(x, tuple) and x and x[0] == "field" and str(x[2]) == str(i) and callname(peel(x[1])) == "split_at" \
+                and is_self(peel(x[1])[2][0]) and is_dlen(peel(x[1])[2][1])
         src = peel(a[1])
-        ok_src = callname(src) == "index" and is_self(src[2][0]) and aggname(src[2][1]).endswith("RangeTo") and is_dlen(src[2][1][2][0])
+        ok_src = (callname(src) == "index" and is_self(src[2][0]) and aggname(src[2][1]).endswith("RangeTo") and is_dlen(src[2][1][2][0])) or split_part(src, 0)
         if not (peel(a[0]) == P2 and ok_src):
             probs.append("does not copy self[..dst.len()] into dst: %s" % fmt_expr(src)[:60])
-        if not (is_self(adv[0][1][0]) and is_dlen(adv[0][1][1])):
+        adv = calls_of(v, facts, "advance")
+        consumed = len(adv) == 1 and is_self(adv[0][1][0]) and is_dlen(adv[0][1][1])
+        if not consumed:
+            # `*self = tail`
+            eb = ExprBuilder(v, facts, inline=True)
+            for bj, blk in enumerate(v.blocks):
+                for sj, st in enumerate(blk["stmts"]):
+                    if st["k"] == "assign" and st["pl"]["p"] == ["*"] and canon(eb.local(st["pl"]["l"], (bj, sj))) == P1:
+                        val = canon(eb.rvalue(st["rv"], (bj, sj), 0))
+                        rest = peel(val)
+                        if split_part(val, 1) or (callname(rest) == "index" and is_self(rest[2][0]) and aggname(rest[2][1]).endswith("RangeFrom") and is_dlen(rest[2][1][2][0])):
+                            consumed = True
+        if not consumed:
             probs.append("does not advance by dst.len()")
         return probs
     decide_views(res, facts, b, b.id + "|copies and consumes dst.len() bytes", slice_probs, "dst.copy_from_slice(&self[..dst.len()]); advance(dst.len())")
